@@ -1056,6 +1056,17 @@ impl ConditionChain {
     fn is_active(&self) -> bool {
         self.0.iter().all(|gate| *gate == ConditionState::Enabled)
     }
+
+    /// If the innermost chain has not taken a branch yet and everything outside it is active
+    fn is_waiting_for_branch(&self) -> bool {
+        match self.0.split_last() {
+            Some((last, outer)) => {
+                *last == ConditionState::DisabledInner
+                    && outer.iter().all(|gate| *gate == ConditionState::Enabled)
+            }
+            None => false,
+        }
+    }
 }
 
 fn preprocess_command(
@@ -1143,9 +1154,16 @@ fn preprocess_command(
             Ok(())
         }
         "elif" => {
-            let command = trim_whitespace(command);
-            let resolved = apply_macros(command, macros, true, file_loader.source_manager)?;
-            let active = crate::condition_parser::parse(&resolved, command_location)?;
+            // The condition is only evaluated when it can select the branch
+            // If an earlier branch was already taken or the whole chain is inside a skipped block then the
+            // condition is not evaluated - so it may use macros that only exist where it would be evaluated
+            let active = if condition_chain.is_waiting_for_branch() {
+                let command = trim_whitespace(command);
+                let resolved = apply_macros(command, macros, true, file_loader.source_manager)?;
+                crate::condition_parser::parse(&resolved, command_location)?
+            } else {
+                false
+            };
             condition_chain.switch(active)?;
 
             Ok(())
